@@ -20,11 +20,13 @@ def prop_modules():
 
 
 def cmd_setup():
-    rc, out = fw.coq_make()
+    rc, out = fw.coq_make(keep_going=True)
     print(out[-3000:])
     if rc != 0:
-        print("setup: coq build failed")
-        return rc
+        # one broken file must not take every check down: each check rebuilds its own closure and
+        # reports a broken proof as a violation of its own property
+        failed = sorted(set(__import__("re").findall(r"\[Makefile:\d+: (theories/[\w/]+\.vo)\] Error", out)))
+        print("setup: coq build had failures (%s); continuing, the affected checks will report them" % ", ".join(failed))
     for name, modname in sorted(prop_modules().items()):
         mod = importlib.import_module(modname)
         if hasattr(mod, "setup"):
